@@ -141,6 +141,19 @@ namespace sim
                 std::printf("B %llu %llu\n", (unsigned long long)i, (unsigned long long)seed);
                 std::fflush(stdout);
                 auto p = e.generate(profile, seed);
+                {
+                    // the subject of this run, so that a failure (also a crash) can be attributed without re-running
+                    auto subj = p.get("sut");
+                    if (subj.empty())
+                        subj = p.get("comp");
+                    if (subj.empty())
+                        subj = p.get("cont");
+                    if (!subj.empty())
+                    {
+                        std::printf("U %s\n", subj.c_str());
+                        std::fflush(stdout);
+                    }
+                }
                 if (i - from < samples)
                 {
                     auto               text = p.str();
